@@ -76,6 +76,8 @@ JudgeVal(ev, lt) ==
                 \/ Report("C12", "descriptor_accepts_what_miniscript_consensus_rejects", ev, d.wrap))
             /\ (d.new # "ok" \/ ObeysContext(m, lt, ctx)
                 \/ Report("C12", "descriptor_new_accepts_context_violation", ev, d.wrap))
+            /\ (d.wrap # "bare" \/ ~(d.from_str \/ d.new = "ok") \/ BareStandard(m)
+                \/ Report("C12", "bare_descriptor_accepts_nonstandard_top_level", ev, <<d.from_str, d.new>>))
             /\ ((d.new # "PANIC" /\ d.from_str_msg # "PANIC") \/ Report("C11", "descriptor_entry_panic", ev, d.wrap))))
 
 JudgeEvent(ev) ==
